@@ -14,6 +14,9 @@ func TestProp(t *testing.T) { hx.Check(t, "signal", Gen, Exec) }
 // TestPropChildRace: child creation swept against the parent's end (two goroutines per round).
 func TestPropChildRace(t *testing.T) { hx.Check(t, "childrace", GenRace, ExecRace) }
 
+// TestPropTaskClose: registered tasks signalling their failure while the owner is in Close (taskclose.go).
+func TestPropTaskClose(t *testing.T) { hx.Check(t, "taskclose", GenTaskClose, ExecTaskClose) }
+
 func TestReplay(t *testing.T) {
-	hx.Replay(t, map[string]func(json.RawMessage) (hx.Verdict, error){"signal": hx.Exec(Exec), "": hx.Exec(Exec), "childrace": hx.Exec(ExecRace)})
+	hx.Replay(t, map[string]func(json.RawMessage) (hx.Verdict, error){"signal": hx.Exec(Exec), "": hx.Exec(Exec), "childrace": hx.Exec(ExecRace), "taskclose": hx.Exec(ExecTaskClose)})
 }
